@@ -254,13 +254,28 @@ def run_live(case):
   pm.prune_handlers()
   if recs:
     c['final_records_compared'] += 1
-    d = render.first_difference(render.test_rec(recs[0]), recs[0].as_base_types(),
-                                'record')
+    d = stable_difference(recs[0], c)
     if d:
       bad('final-record-differs:' + d.split(':')[0].split('[')[0], diff=d,
           ops=case['ops'])
   return {'sig': case if c['live_reads_compared'] else None, 'violations': viol,
           'counters': c}
+
+
+def stable_difference(rec, c, label='record'):
+  """Fresh rendering vs as_base_types() of a finished record.  The two reads
+  are not atomic: if a log line still in flight on another thread lands between
+  them (log_records grew), the pair is read again; counted, never judged."""
+  from vf import render
+  d = None
+  for _ in range(4):
+    n0 = len(rec.log_records)
+    d = render.first_difference(render.test_rec(rec), rec.as_base_types(), label)
+    if len(rec.log_records) == n0:
+      return d
+    c['record_changed_during_comparison'] = c.get(
+        'record_changed_during_comparison', 0) + 1
+  return None
 
 
 def run_record(case):
@@ -270,12 +285,12 @@ def run_record(case):
   c = {'live_reads_compared': 0, 'final_records_compared': 0,
        'json_documents_parsed': 0, 'attachments_round_tripped': 0}
   real = pm.run_real(case['prog'], case['cfg'], keep=True)
+  pm.settle()
   b = real['_built']
   if b.recs:
     rec = b.recs[0]
     c['final_records_compared'] = 1
-    d = render.first_difference(render.test_rec(rec), rec.as_base_types(),
-                                'record')
+    d = stable_difference(rec, c)
     if d:
       viol.append({'mechanism': 'final-record-differs:' +
                    d.split(':')[0].split('[')[0], 'detail': {'diff': d}})
@@ -336,6 +351,7 @@ def run_json(case):
     t.execute()
   go()
   pm.prune_handlers()
+  pm.settle()
 
   def bad(mech, **d):
     if len(viol) < 4:
